@@ -3611,6 +3611,20 @@ KERNELS += [
          theorem="WW.KernelsTakeRate.gen_collector_take_rate_split_eq_model", module="WW.Props.Kernels.TakeRate"),
 ]
 
+# ---- the whale lair's unbond arithmetic (C08): inline in `commands::unbond` ------------------------------------------
+LAIR_COMMANDS = LH + "whale_lair/src/commands.rs"
+KERNELS += [
+    dict(lean="lair_unbond_slash", file=LAIR_COMMANDS, fn="unbond",
+         fragment=dict(start=r"^\s*let weight_slash = unbond\.weight \* Decimal::from_ratio",
+                       end=r"^\s*unbond\.asset\.amount = unbond\.asset\.amount\.checked_sub\(asset\.amount\)\?;",
+                       params=[("bond_weight", "Uint128"), ("bond_amount", "Uint128"), ("amount", "Uint128")],
+                       subst=[("unbond.asset.amount", "bond_amount"), ("unbond.weight", "bond_weight"), ("asset.amount", "amount")],
+                       mut_params=["bond_weight", "bond_amount"],
+                       result=["weight_slash", "bond_weight", "bond_amount"]),
+         props=["C08"], model="the slash / remaining-bond arithmetic of WW.Lair.unbondLocal",
+         theorem="WW.KernelsLairUnbond.gen_lair_unbond_slash_eq_model", module="WW.Props.Kernels.LairUnbond"),
+]
+
 # the generated file imports the map primitives next to the number primitives
 GEN_IMPORTS = ["import WW.Cw.Arith", "import WW.Cw.BTree"]
 
